@@ -69,6 +69,7 @@ class HashSystem(System):
 
         def check_strategy(name, hf, key, fnv_ref=None, depths=DEPTHS):
             full = hf(key, max(depths))
+            frozen = list(full)  # an answer belongs to its caller: later calls must not rewrite it
             n[0] += 1
             if len(key) > 0:
                 n[1] += 1
@@ -85,6 +86,10 @@ class HashSystem(System):
                 if part != full[:d] or len(part) != d:
                     bad("hash.prefix_stable", {"strategy": name, "key": repr(key), "depth": d})
                     break
+            other = hf(b"another-key", 2)
+            if full != frozen or len(full) != max(depths) or other is full:
+                bad("hash.answers_are_independent_objects", {"strategy": name, "key": repr(key), "first_answer_now": repr(full)[:120],
+                                                             "first_answer_was": repr(frozen)[:120]})
             if fnv_ref is not None:
                 data = key if isinstance(key, bytes) else key.encode("ascii")
                 want = [fnv_ref(data, i) for i in range(max(depths))]
@@ -140,6 +145,7 @@ class HashSystem(System):
                 check_strategy("default_sha256", default_sha256, key)
                 check_strategy("dec_bytes", K.blake_bytes, key)
                 check_strategy("dec_int", K.crc_int, key)
+                check_strategy("dec_salted", K.salted_bytes, key)
             for a in range(128):
                 t = chr(a)
                 if default_fnv_1a(t, 4) != default_fnv_1a(t.encode(), 4) or fnv_1a_32(t) != fnv_1a_32(t.encode()):
@@ -169,8 +175,23 @@ class HashSystem(System):
             # depths beyond the usual, decorator strategies on longer keys
             for key in ("alpha", b"bravo", "chärlie", "d" * 300):
                 for name, hf in (("default_fnv_1a", default_fnv_1a), ("default_md5", default_md5), ("default_sha256", default_sha256),
-                                 ("dec_bytes", K.blake_bytes), ("dec_int", K.crc_int)):
+                                 ("dec_bytes", K.blake_bytes), ("dec_int", K.crc_int), ("dec_salted", K.salted_bytes)):
                     check_strategy(name, hf, key, None, (1, 2, 7, 16, 33))
+            # a decorator-built strategy must hand its function the round index (documented wrapper contract)
+            import hashlib
+            import struct as _struct
+
+            for key in (b"salt", "sält", b"\x00\xff"):
+                tmp = key if isinstance(key, bytes) else key.encode("utf-8")
+                want = []
+                for i in range(6):
+                    tmp = hashlib.blake2b(tmp, digest_size=16, salt=int(i).to_bytes(8, "little")).digest()
+                    want.append(_struct.unpack("Q", tmp[:8])[0])
+                n[0] += 1
+                for d in (6, 1, 3):
+                    if K.salted_bytes(key, d) != want[:d]:
+                        bad("hash.decorator_passes_round_index", {"key": repr(key), "depth": d, "obs": K.salted_bytes(key, d)[:2], "expected": want[:2]})
+                        break
             # increasing deep requests in one process (lazily grown per-index tables, memoised chains)
             for name, hf, ref in (("default_fnv_1a", default_fnv_1a, ref64), ("default_md5", default_md5, None),
                                   ("default_sha256", default_sha256, None), ("dec_bytes", K.blake_bytes, None)):
